@@ -395,7 +395,7 @@ func TestC18(t *testing.T) {
 		}
 	}), c18Prop)
 
-	hx.Rapid(r, t, "generated", r.N(200000, 2000000), func(rt *rapid.T) c18Case {
+	genOne := func(rt *rapid.T) c18Case {
 		rule := wire.AttrRules[rapid.IntRange(0, len(wire.AttrRules)-1).Draw(rt, "attr")]
 		c := c18Case{Code: rule.Code, Flags: correctFlags(rule.Code)}
 		switch rapid.IntRange(0, 9).Draw(rt, "fk") {
@@ -411,7 +411,9 @@ func TestC18(t *testing.T) {
 			c.Val = genAttrValue(rt, rule.Code)
 		}
 		return c
-	}, c18Prop)
+	}
+	hx.Rapid(r, t, "generated", r.N(200000, 2000000), genOne, c18Prop)
+	hx.Rapid(r, t, "concurrent_decoders", r.N(400, 4000), genConc(genOne, 2, 6, 40), concProp(c18Prop))
 }
 
 func FuzzC18Attr(f *testing.F) {
